@@ -43,3 +43,114 @@ func ZZ_C09_LockDiscipline() {
 	vx.Assert("no lock left held", vx.LocksHeld() == 0)
 	vx.AssertLockDiscipline()
 }
+
+// C09 (b): two creates in flight at the same time - for the same known
+// subscriber, for the same NEW subscriber, or for different subscribers -
+// under every interleaving at scheduling-point granularity (mutex, sync.Map
+// and channel operations; sequentially consistent; bounded number of
+// voluntary context switches). When both have completed: both were answered
+// 201, their session references differ, and every acknowledged session is
+// still addressable (its record is reachable through the subscriber context
+// that the pool holds for its SUPI). No interleaving deadlocks.
+//
+//gosx:property=C09 tier=quick unwind=40 timeout=30000 p.preempt=3 p.preempt.thorough=5
+func ZZ_C09_ConcurrentCreates() {
+	p := zzSetup()
+	self := chf_context.GetSelf()
+	scenario := vx.Choice("scenario", 3)
+	supiA, supiB := zzSupi, zzSupi
+	switch scenario {
+	case 0: // same subscriber, already known
+		zzCreate(p, "warmup", zzSupi)
+	case 1: // same subscriber, not yet known: both creates race to add it
+	default: // different subscribers
+		supiB = zzSupi2
+	}
+	reqA := zzCreateReq("A", supiA)
+	reqB := zzCreateReq("B", supiB)
+	// same consumer name: the references can only differ by the counter
+	reqB.NfConsumerIdentification.NFName = reqA.NfConsumerIdentification.NFName
+	cA, cB := &gin.Context{}, &gin.Context{}
+	vx.Parallel(
+		func() { p.HandleChargingdataInitial(cA, reqA) },
+		func() { p.HandleChargingdataInitial(cB, reqB) },
+	)
+	vx.Assert("both creates answered 201", vx.HTTPStatus(cA) == 201 && vx.HTTPStatus(cB) == 201)
+	locA, locB := vx.HTTPHeader(cA, "Location"), vx.HTTPHeader(cB, "Location")
+	vx.Assert("concurrent creates return different session references", locA != locB)
+	vx.Assert("no lock left held", vx.LocksHeld() == 0)
+	for i, loc := range []string{locA, locB} {
+		supi := supiA
+		if i == 1 {
+			supi = supiB
+		}
+		if len(loc) <= len(zzRefPrefix) {
+			continue
+		}
+		ue, ok := self.ChfUeFindBySupi(supi)
+		vx.Assert("subscriber of an acknowledged session is in the pool", ok)
+		if ok {
+			vx.Assert("every acknowledged session is still addressable", ue.Cdr[loc[len(zzRefPrefix):]] != nil)
+		}
+	}
+}
+
+// C09 (b'): an update in flight together with another update, a release of a
+// second session, or a recharge notification of the same subscriber: under
+// every interleaving both complete, each reported usage entry is recorded
+// exactly once in its own session's record, and conservation (C01) holds
+// for the group at quiescence.
+//
+//gosx:property=C09 tier=quick shards=3 unwind=40 timeout=30000 p.preempt=0 p.preempt.thorough=1 maxseconds.thorough=3000
+func ZZ_C09_ConcurrentUpdates() {
+	p := zzSetup()
+	rg := int32(1)
+	q := vx.Int64("balance")
+	vx.Assume(q >= 0)
+	vx.Assume(q < 1<<40)
+	cost := int64(10)
+	zzAccount(zzSupi, rg, q, cost)
+	refA, _ := zzCreate(p, "A", zzSupi)
+	refB, _ := zzCreate(p, "B", zzSupi)
+	ue, _ := chf_context.GetSelf().ChfUeFindBySupi(zzSupi)
+	mk := func(l string) (models.ChfConvergedChargingChargingDataRequest, int64) {
+		u, online := zzUsageInd(l, rg, 1, 2)
+		zzSmallUsage(&u)
+		return models.ChfConvergedChargingChargingDataRequest{SubscriberIdentifier: zzSupi, MultipleUnitUsage: []models.ChfConvergedChargingMultipleUnitUsage{u}}, online
+	}
+	r1, on1 := mk("u1")
+	r2, on2 := mk("u2")
+	c1, c2 := &gin.Context{}, &gin.Context{}
+	other := vx.Param("shard", 0) // one kind of concurrent partner per shard
+	vx.Parallel(
+		func() { p.HandleChargingdataUpdate(c1, r1, refA) },
+		func() {
+			switch other {
+			case 0:
+				p.HandleChargingdataUpdate(c2, r2, refA)
+			case 1:
+				p.HandleChargingdataRelease(c2, r2, refB)
+			default:
+				p.NotifyRecharge(zzSupi, rg)
+			}
+		},
+	)
+	vx.Assert("no lock left held", vx.LocksHeld() == 0)
+	vx.Assert("first update answered 200", vx.HTTPStatus(c1) == 200)
+	nA, nB := len(zzUsageList(ue, refA)), len(zzUsageList(ue, refB))
+	reported := int64(0)
+	switch other {
+	case 0:
+		vx.Assert("second update answered 200", vx.HTTPStatus(c2) == 200)
+		vx.Assert("both usage entries recorded exactly once in session A", nA == 2 && nB == 0)
+		reported = on1 + on2
+	case 1:
+		vx.Assert("release answered 204", vx.HTTPStatus(c2) == 204)
+		vx.Assert("each usage entry recorded exactly once in its own session", nA == 1 && nB == 1)
+		reported = on1 + on2
+	default:
+		vx.Assert("the usage entry is recorded exactly once", nA == 1 && nB == 0)
+		reported = on1
+	}
+	vx.Assert("credit conserved at quiescence", zzBalance(zzSupi, rg)+ue.ReservedQuota[rg] == q-cost*reported)
+}
